@@ -223,3 +223,39 @@ def rule_r21_compaction(ctx, prog, rule="R21", body=None):
                what="compaction postcondition")
     ctx.floor(rule, len(res), 6, "postcondition instances on return paths")
     return C, sa
+
+
+def rule_r24_selection(ctx, prog, rule="R24"):
+    """single selection returns the element of rank i with the documented ordering of the rest (C02, single form)"""
+    from .selection import SelectionProof
+    b = prog.method("Sort1dExt", "get_from_sorted_mut")
+    part = prog.method("Sort1dExt", "partition_mut")
+    ipar = [l for l in range(1, b.arg_count + 1) if "uint:usize" in b.local_flags(l)]
+    if len(ipar) != 1:
+        ctx.ob(rule, "get_from_sorted_mut/index-param", False, b.where(), "anchor missing: index parameter", what="anchor missing")
+        return
+    sp = SelectionProof(prog, b, part.key, {b.key})
+    try:
+        res = sp.prove(ipar[0])
+    except Exception as ex:   # path enumeration / modelling failure: fail closed
+        ctx.ob(rule, "get_from_sorted_mut/paths", False, b.where(), "anchor not recognised: %r" % (ex,), what="anchor not recognised")
+        return
+    ctx.floor(rule, len(res), 3, "return paths of get_from_sorted_mut")
+    ctx.extras["R24_paths"] = [{"blocks": r[0], "a[i]=r": r[1], "left<=r": r[2], "right>=r": r[3]} for r in res]
+    for name, idx, text in (("returns-element-at-i", 1, "the returned value is the element now at position i"),
+                            ("left-not-greater", 2, "every element before position i is ≤ the returned value"),
+                            ("right-not-smaller", 3, "every element after position i is ≥ the returned value")):
+        bad = [r for r in res if not r[idx]]
+        ctx.ob(rule, "get_from_sorted_mut/%s" % name, not bad, b.where(),
+               "%s — on all %d return paths (partition contract R22 + induction hypothesis on the strictly shorter sub-view)" % (text, len(res))
+               if not bad else "not established on the return path through blocks %s%s" % (bad[0][0], (": " + bad[0][4]) if bad[0][4] else ""),
+               what="selection postcondition")
+    # recursion is on a strictly shorter view (well-founded induction): every recursive call receives a slice_axis_mut of self
+    rec_calls = [(bb, t) for bb, t in b.calls() if prog.local_callee_body(t) is not None and prog.local_callee_body(t).key == b.key]
+    ok = bool(rec_calls)
+    for bb, t in rec_calls:
+        a0 = ds(b.call_arg_exprs(bb)[0])
+        ok = ok and isinstance(a0, tuple) and a0[0] == "call" and a0[1] == "slice_axis_mut" and ds(a0[3][0])[:2] == ("param", 1)
+    ctx.ob(rule, "get_from_sorted_mut/recursion-on-subview", ok, b.where(),
+           "each of the %d recursive calls is on slice_axis_mut(self, ..k) or (k+1..) with k < len: strictly shorter" % len(rec_calls) if ok else
+           "a recursive call is not on a proper sub-view of self", what="induction not well-founded")
